@@ -13,8 +13,8 @@ from harness.kernels import PATTERN_ALPHABET, dense_B, kernel_input, model_value
 from harness.runner import run_property
 
 PROP = "C08"
-THEOREMS = ["Lbfgsb.C08.order_sorted", "Lbfgsb.C08.order_positive", "Lbfgsb.C08.order_nodup", "Lbfgsb.C08.gcp_in_box"]
-MODULES = ["LbfgsbVerif.Props.C08"]
+THEOREMS = ["Lbfgsb.C08.order_sorted", "Lbfgsb.C08.order_positive", "Lbfgsb.C08.order_nodup", "Lbfgsb.C08.gcp_in_box", "Lbfgsb.C08.gcp_on_projected_path"]
+MODULES = ["LbfgsbVerif.Props.C08", "LbfgsbVerif.Props.C08Path"]
 
 
 def check_point(inp, xcp, c) -> List[Dict[str, Any]]:
@@ -66,7 +66,7 @@ def evaluate(case: Dict[str, Any]) -> Dict[str, Any]:
     pattern = None
     if case.get("pattern") is not None:
         pattern = [PATTERN_ALPHABET[k] for k in case["pattern"]]
-    inp = kernel_input(case["seed"], n=len(pattern) if pattern else None, pattern=pattern)
+    inp = kernel_input(case["seed"], n=case.get("n") or (len(pattern) if pattern else None), pattern=pattern, tie=bool(case.get("tie")))
     x, g, lb, ub, mats, n = inp["x"], inp["g"], inp["lb"], inp["ub"], inp["mats"], inp["n"]
     if case.get("npairs_zero"):
         from lbfgsb.bfgsmats import LBFGSB_MATRICES
@@ -79,7 +79,7 @@ def evaluate(case: Dict[str, Any]) -> Dict[str, Any]:
     res = check_point(inp, np.asarray(xcp, dtype=float), np.asarray(c, dtype=float))
     skips = [r["skip"] for r in res if "skip" in r]
     out["prop"] = [r for r in res if "skip" not in r]
-    out["tags"] += [f"n={n}", f"pairs={min(inp['npairs'], 4)}", f"at_bound_outward={bool(np.any(((x == lb) & (g > 0)) | ((x == ub) & (g < 0))))}"] + [f"skip:{s}" for s in skips]
+    out["tags"] += [f"tied_breakpoints={bool(case.get('tie'))}", f"n={n}", f"pairs={min(inp['npairs'], 4)}", f"at_bound_outward={bool(np.any(((x == lb) & (g > 0)) | ((x == ub) & (g < 0))))}"] + [f"skip:{s}" for s in skips]
     # ---- Lean Float model of the routine
     if mats.use_factor:
         Minv = mats.invMfactors[0] @ mats.invMfactors[1]
@@ -122,6 +122,8 @@ def run(tier: str, seed: int) -> int:
                 cases.append({"seed": seed * 1_000_003 + k, "pattern": list(pat), "npairs_zero": z})
                 k += 1
     cases += [{"seed": seed * 1_000_003 + k + i} for i in range(nrand)]
+    ntie = 3000 if tier == "quick" else 60000
+    cases += [{"seed": seed * 1_000_003 + 900_000 + i, "tie": True, "n": 3 + i % 4} for i in range(ntie)]
     return run_property(
         PROP, "harness.props.c08", THEOREMS, MODULES, cases, tier, seed,
         rule=f"structural enumeration: every combination per variable of position (lb/ub/interior) x gradient sign (-/0/+) x bound kind "
